@@ -57,7 +57,7 @@ func init() {
 	registry["C03"] = &propCfg{
 		Engine: hostile.Engine{}, EngineName: "hostile", Level: "exploration",
 		QuickRuns: 100000, ThoroughRuns: 4000000, QuickCapS: 60, ThoroughCapS: 900,
-		Rule: "one run = one valid stream from the independent writers, then either 6-15 hostile inputs derived from it (1-4 seeded corruptions: bit flip, byte replace, interesting-byte replace/insert, delete, truncate, length inflation; splices; pure random bytes), each delivered through 2-3 of {Parse, ParseString, Write* under a seeded chunking, ParseReader and Decoder.Next loops under seeded short reads / buffer sizes / EOF modes}, or (1 run in 3) every strict prefix ending inside a value (96 sampled if more) through the five entry points that know the end; evaluations = guarded entry-point executions; distinct by (input bytes, entry, schedule); all are non-trivial (hostile or truncated input); further scenario kinds: truncation also inside complete RFC 8949 items outside the library's subset (tags, half floats, simple values, indefinite strings); memScaling (1 in 1500: exact allocation for one 4 MiB and one 8 MiB token in 4-100 KiB pieces must about double); stackBomb (1 in 1000: 2^20-2^21 nesting levels, closed at once or not at all, under a 64 MiB stack limit); empty reads (0, nil) in reader plans",
+		Rule: "one run = one valid stream from the independent writers, then either 6-15 hostile inputs derived from it (1-4 seeded corruptions: bit flip, byte replace, interesting-byte replace/insert, delete, truncate, length inflation; splices; pure random bytes), each delivered through 2-3 of {Parse, ParseString, Write* under a seeded chunking, ParseReader and Decoder.Next loops under seeded short reads / buffer sizes / EOF modes}, or (1 run in 3) every strict prefix ending inside a value (96 sampled if more) through the five entry points that know the end; evaluations = guarded entry-point executions; distinct by (input bytes, entry, schedule); all are non-trivial (hostile or truncated input); further scenario kinds: truncation also inside complete RFC 8949 items outside the library's subset (tags, half floats, simple values, indefinite strings); memScaling (1 in 1500: exact allocation for one 4 MiB and one 8 MiB token in 4-100 KiB pieces must about double); stackBomb (1 in 1000: 2^20-2^21 nesting levels, closed at once or not at all, under a 64 MiB stack limit); empty reads (0, nil) and runs of them in reader plans; Next is called twice more after every decoder error; cborl/ubjson also through Write followed by Parse/ParseString on the same parser",
 		Components: map[string][]string{
 			"real": {"json/ubjson/cborl Parser", "json/ubjson/cborl Decoder", "io.Copy"},
 			"stub": {"io.Reader (simkit.Reader)", "downstream visitor (counting sink)"}},
@@ -121,7 +121,7 @@ func init() {
 	registry["C19"] = &propCfg{
 		Engine: conc.Engine{}, EngineName: "conc", Level: "exploration", Race: true, RunsPerProc: 8, GoMaxProcs: "1",
 		QuickRuns: 8000, ThoroughRuns: 300000, QuickCapS: 50, ThoroughCapS: 900,
-		Rule: "one run = 2-6 caller goroutines, each with a seeded program of 1-4 pipeline operations on instances of its own (nine kinds: fold->encoder->writer with per-task JSON encoder options, reader->parser->unfolder incl. documents with members unknown to the target, transcode, fold->unfold, iterator+unfolder reused across values, per-instance custom folder, per-instance custom unfolder inside the shared enclosing type Holder, parse-hostile = corrupted/truncated shared documents, events-encode = generated event streams incl. high-precision values) over shared read-only documents, Go values (always one Inner-bearing value, one map whose key needs HTML escaping, 1-2 values with inline interface/Folder fields) and Go types (incl. two distinct types with the same qualified name), executed under the serialized seeded task scheduler (7 policies) with a task switch possible at every Read, Write (before the buffer is consumed) and visitor event; GOMAXPROCS=1; a worker process executes at most 8 runs; for a quarter of the runs (half in thorough) every task is also executed alone in a fresh process of its own and compared; evaluations = runs; distinct by (interleaving digest, programs) and non-trivial if more task switches than tasks occurred; fold-encode tasks also draw from a FIXED pool of option-sensitive values, fold large shared typed slices (255-1025 elements), fold values of their OWN of types that go through scratch copies, and register (or not) a user folder for a kind that is unsupported otherwise",
+		Rule: "one run = 2-6 caller goroutines, each with a seeded program of 1-4 pipeline operations on instances of its own (nine kinds: fold->encoder->writer with per-task JSON encoder options, reader->parser->unfolder incl. documents with members unknown to the target, transcode, fold->unfold, iterator+unfolder reused across values, per-instance custom folder, per-instance custom unfolder inside the shared enclosing type Holder, parse-hostile = corrupted/truncated shared documents, events-encode = generated event streams incl. high-precision values) over shared read-only documents, Go values (always one Inner-bearing value, one map whose key needs HTML escaping, 1-2 values with inline interface/Folder fields) and Go types (incl. two distinct types with the same qualified name), executed under the serialized seeded task scheduler (7 policies) with a task switch possible at every Read, Write (before the buffer is consumed) and visitor event; GOMAXPROCS=1; a worker process executes at most 8 runs; for a quarter of the runs (half in thorough) every task is also executed alone in a fresh process of its own and compared; evaluations = runs; distinct by (interleaving digest, programs) and non-trivial if more task switches than tasks occurred; fold-encode tasks also draw from a FIXED pool of option-sensitive values, fold large shared typed slices (255-1025 elements), fold values of their OWN of types that go through scratch copies, and register (or not) a user folder for a kind that is unsupported otherwise; a sixteenth of the runs additionally execute their tasks free-running (real threads, fresh race-instrumented process, 3 attempts) against fresh-process run-alone references",
 		Components: map[string][]string{
 			"real": {"gotype.Fold/Iterator/Unfolder incl. reflection-based compilation and type registries", "json/ubjson/cborl Parser and Visitor", "Go race detector (-race) as oracle"},
 			"stub": {"thread scheduler (simkit.Sched: one runnable goroutine at a time, hand-offs hidden from the race detector)", "io.Reader / io.Writer / visitor taps that yield to the scheduler"}},
